@@ -528,17 +528,70 @@ def serializer_sites(mods):
                 raise Refused("serialize.py:%d: unrecognised write of _level" % st.lineno)
     if seen_inc == 0:
         raise Refused("serialize.py: no `self._level += 1` found")
-    # memo: every write of _selectors / _selectorlevel outside __init__ sits under `if self.prefs.indentSpecificities:`
+    # memo: every write of _selectors / _selectorlevel outside __init__ sits under `if self.prefs.indentSpecificities [and
+    # self._selectors is not None]:` -- or belongs to the per-sheet bracket of do_CSSStyleSheet (below)
+    def memo_tuple(node, what):
+        """node is the tuple  self._selectors, self._selectorlevel  (what='attr'),  [], 0  ('empty') or two names ('names')"""
+        if not (isinstance(node, ast.Tuple) and len(node.elts) == 2):
+            return None
+        a, b2 = node.elts
+        if what == "attr":
+            return is_attr_chain(a, ["self", "_selectors"]) and is_attr_chain(b2, ["self", "_selectorlevel"])
+        if what == "empty":
+            return isinstance(a, ast.List) and not a.elts and isinstance(b2, ast.Constant) and b2.value == 0
+        if isinstance(a, ast.Name) and isinstance(b2, ast.Name):
+            return (a.id, b2.id)
+        return None
+    sheetfn = find_func(tree, ["CSSSerializer", "do_CSSStyleSheet"])
+    bracket_ids = set()
+    scoped = False
+    sb = body_wo_doc(sheetfn)
+    for i, s in enumerate(sb):
+        if isinstance(s, ast.Assign) and len(s.targets) == 1 and memo_tuple(s.value, "attr") and memo_tuple(s.targets[0], "names"):
+            names = memo_tuple(s.targets[0], "names")
+            if not (i + 2 < len(sb) and isinstance(sb[i + 1], ast.Assign) and len(sb[i + 1].targets) == 1
+                    and memo_tuple(sb[i + 1].targets[0], "attr") and memo_tuple(sb[i + 1].value, "empty")
+                    and isinstance(sb[i + 2], ast.Try) and not sb[i + 2].handlers and not sb[i + 2].orelse
+                    and len(sb[i + 2].finalbody) == 1 and isinstance(sb[i + 2].finalbody[0], ast.Assign)
+                    and memo_tuple(sb[i + 2].finalbody[0].targets[0], "attr")
+                    and memo_tuple(sb[i + 2].finalbody[0].value, "names") == names):
+                raise Refused("serialize.py:%d: unrecognised selector-memo bracket in do_CSSStyleSheet" % s.lineno)
+            tr = sb[i + 2]
+            if names[0] in names_stored(tr.body) or names[1] in names_stored(tr.body):
+                raise Refused("serialize.py:%d: the remembered memo is reassigned inside the bracket" % tr.lineno)
+            # every rule is serialized inside the bracket: no `.cssText` outside the try
+            for other in sb[:i] + sb[i + 3:]:
+                if any(isinstance(x, ast.Attribute) and x.attr == "cssText" for x in ast.walk(other)):
+                    raise Refused("serialize.py:%d: a rule is serialized outside the selector-memo bracket" % other.lineno)
+            bracket_ids.update({id(sb[i + 1]), id(tr.finalbody[0])})
+            scoped = True
+    initfn = find_func(tree, ["CSSSerializer", "__init__"])
+    init_none = any(isinstance(x, ast.Assign) and is_attr_chain(x.targets[0], ["self", "_selectors"])
+                    and isinstance(x.value, ast.Constant) and x.value.value is None for x in ast.walk(initfn))
     guarded_ids = set()
+    guard_checks_sheet = True
     for n in ast.walk(tree):
-        if isinstance(n, ast.If) and is_attr_chain(n.test, ["self", "prefs", "indentSpecificities"]):
+        if not isinstance(n, ast.If):
+            continue
+        plain = is_attr_chain(n.test, ["self", "prefs", "indentSpecificities"])
+        withsheet = (isinstance(n.test, ast.BoolOp) and isinstance(n.test.op, ast.And) and len(n.test.values) == 2
+                     and is_attr_chain(n.test.values[0], ["self", "prefs", "indentSpecificities"])
+                     and isinstance(n.test.values[1], ast.Compare) and is_attr_chain(n.test.values[1].left, ["self", "_selectors"])
+                     and len(n.test.values[1].ops) == 1 and isinstance(n.test.values[1].ops[0], ast.IsNot)
+                     and isinstance(n.test.values[1].comparators[0], ast.Constant) and n.test.values[1].comparators[0].value is None)
+        if plain or withsheet:
+            if plain:
+                guard_checks_sheet = False
             for s in n.body:
                 for x in ast.walk(s):
                     guarded_ids.add(id(x))
+    if scoped and not (init_none and guard_checks_sheet):
+        # the bracket alone is not enough: outside a sheet the memo must not be used at all
+        scoped = False
     guarded = True
     for t, st in store_targets(tree):
         if isinstance(t, ast.Attribute) and t.attr in ("_selectors", "_selectorlevel"):
-            if own.get(id(st)) == "CSSSerializer.__init__":
+            if own.get(id(st)) == "CSSSerializer.__init__" or id(st) in bracket_ids:
                 continue
             if id(st) not in guarded_ids:
                 guarded = False
@@ -557,7 +610,7 @@ def serializer_sites(mods):
                 raise Refused("%s:%d: serializer memo used outside serialize.py" % (rel, n.lineno))
             if isinstance(n, ast.Attribute) and n.attr == "_level" and isinstance(n.ctx, (ast.Store, ast.Del)):
                 raise Refused("%s:%d: _level written outside serialize.py" % (rel, n.lineno))
-    return dict(level_restored_exc=restored, memo_guarded=guarded)
+    return dict(level_restored_exc=restored, memo_guarded=guarded, memo_scoped=scoped)
 
 
 # ---------------------------------------------------------------------------------------- settings.py
@@ -585,6 +638,99 @@ def settings_frame(mods):
                 raise Refused("%s:%d: _TOKENIZER_CACHE assigned in %s" % (rel, st.lineno, own.get(id(st))))
 
 
+def cache_sites(mods):
+    """tokenize2.Tokenizer.__init__: what the key of _TOKENIZER_CACHE is made of; settings.set: does it clear the cache"""
+    tk = mods["tokenize2.py"]
+    init = find_func(tk, ["Tokenizer", "__init__"])
+    keyasg = [n for n in ast.walk(init) if isinstance(n, ast.Assign) and len(n.targets) == 1
+              and isinstance(n.targets[0], ast.Name) and n.targets[0].id == "hash_key"]
+    if len(keyasg) != 1:
+        raise Refused("tokenize2.py:%d: hash_key is not assigned exactly once in Tokenizer.__init__" % init.lineno)
+    kv = keyasg[0].value
+    uses = [n for n in ast.walk(init) if isinstance(n, ast.Name) and n.id == "hash_key" and isinstance(n.ctx, ast.Load)]
+    lookups = [n for n in ast.walk(init) if isinstance(n, ast.Subscript) and isinstance(n.value, ast.Name)
+               and n.value.id == "_TOKENIZER_CACHE"]
+    if len(uses) != 3 or len(lookups) != 2 or not all(isinstance(n.slice, ast.Name) and n.slice.id == "hash_key" for n in lookups):
+        raise Refused("tokenize2.py:%d: unrecognised use of the tokenizer cache" % init.lineno)
+
+    def is_items_sorted(node):   # sorted(macros.items())
+        return (isinstance(node, ast.Call) and isinstance(node.func, ast.Name) and node.func.id == "sorted" and len(node.args) == 1
+                and isinstance(node.args[0], ast.Call) and is_attr_chain(node.args[0].func, ["macros", "items"]))
+
+    def is_names_sorted(node):   # sorted(macros): the names only
+        return (isinstance(node, ast.Call) and isinstance(node.func, ast.Name) and node.func.id == "sorted" and len(node.args) == 1
+                and isinstance(node.args[0], ast.Name) and node.args[0].id == "macros")
+    mk = [n for n in ast.walk(init) if isinstance(n, ast.Assign) and len(n.targets) == 1 and isinstance(n.targets[0], ast.Name)
+          and n.targets[0].id == "macros_hash_key"]
+    names_in_key = {n.id for n in ast.walk(kv) if isinstance(n, ast.Name)}
+    if "macros_hash_key" in names_in_key and len(mk) == 2 and any(is_items_sorted(m.value) for m in mk) and \
+            any(isinstance(m.value, ast.Name) and m.value.id == "macros" for m in mk) and "productions" in names_in_key \
+            and not any(is_names_sorted(n) for n in ast.walk(kv)):
+        full = True
+    elif any(is_names_sorted(n) for n in ast.walk(kv)) and "productions" in names_in_key:
+        full = False            # only the macro names reach the key
+    elif any(is_items_sorted(n) for n in ast.walk(kv)) and "productions" in names_in_key:
+        full = True
+    else:
+        raise Refused("tokenize2.py:%d: unrecognised tokenizer cache key" % keyasg[0].lineno)
+    st = find_func(mods["settings.py"], ["set"])
+    cond = body_wo_doc(st)[0]
+    clears = inserts = False
+    for n in ast.walk(cond):
+        if isinstance(n, ast.Call) and isinstance(n.func, ast.Attribute) and n.func.attr == "clear" and \
+                isinstance(n.func.value, ast.Attribute) and n.func.value.attr == "_TOKENIZER_CACHE":
+            clears = True
+        if isinstance(n, ast.Call) and isinstance(n.func, ast.Attribute) and n.func.attr == "insert" and \
+                isinstance(n.func.value, ast.Attribute) and n.func.value.attr == "PRODUCTIONS":
+            inserts = True
+    if not inserts:
+        raise Refused("settings.py:%d: set() does not insert into PRODUCTIONS" % st.lineno)
+    return dict(cache_key_full=full, dx_clears_cache=clears)
+
+
+def more_frames(mods):
+    """caller settings nothing in the library may change: css_parser.profile, level/handlers of css_parser.log;
+    import-time constants: util.Base's class-level tokenizer and productions"""
+    writers = {"__init__", "__update_knownNames", "_setDefaultProfiles", "_resetProperties", "addProfiles", "addProfile",
+               "removeProfile"}
+    for rel, tree in mods.items():
+        own = owner_map(tree)
+        for n in ast.walk(tree):
+            if isinstance(n, ast.Call) and isinstance(n.func, ast.Attribute):
+                a = n.func.attr
+                where = own.get(id(n), "?")
+                if a in ("addProfile", "addProfiles", "removeProfile", "_resetProperties", "__update_knownNames") and \
+                        not (rel == "profiles.py" and where.split(".")[-1] in writers):
+                    raise Refused("%s:%d: %s called in %s" % (rel, n.lineno, a, where))
+                if a in ("setLevel", "addHandler", "removeHandler", "setLog") and is_attr_chain(n.func.value, ["css_parser", "log"]) \
+                        and (rel, where) != ("parse.py", "CSSParser.__init__"):
+                    raise Refused("%s:%d: css_parser.log.%s called in %s" % (rel, n.lineno, a, where))
+        for t, st in store_targets(tree):
+            base = t.value if isinstance(t, ast.Subscript) else t
+            if isinstance(base, ast.Attribute) and base.attr in ("defaultProfiles", "_defaultProfiles", "_profilesProperties",
+                                                                 "_rawProfiles", "_profileNames", "_usedMacros", "_knownNames"):
+                where = own.get(id(st), "?")
+                if not (rel == "profiles.py" and where.split(".")[-1] in writers):
+                    raise Refused("%s:%d: %s assigned in %s" % (rel, st.lineno, base.attr, where))
+            if isinstance(base, ast.Attribute) and base.attr in ("__tokenizer2", "_Base__tokenizer2"):
+                raise Refused("%s:%d: util.Base's class-level tokenizer reassigned" % (rel, st.lineno))
+            if isinstance(base, ast.Name) and base.id == "__tokenizer2" and (rel, own.get(id(st))) != ("util.py", "Base"):
+                raise Refused("%s:%d: __tokenizer2 assigned in %s" % (rel, st.lineno, own.get(id(st))))
+            if isinstance(base, ast.Attribute) and base.attr == "_prods" and isinstance(base.value, ast.Name) and base.value.id == "Base":
+                raise Refused("%s:%d: Base._prods reassigned" % (rel, st.lineno))
+    # the log arguments of CSSParser.__init__ are applied only when given
+    init = find_func(mods["parse.py"], ["CSSParser", "__init__"])
+    for n in ast.walk(init):
+        if isinstance(n, ast.Call) and isinstance(n.func, ast.Attribute) and n.func.attr in ("setLevel", "setLog"):
+            pass
+    for st in body_wo_doc(init):
+        calls = [n for n in ast.walk(st) if isinstance(n, ast.Call) and isinstance(n.func, ast.Attribute)
+                 and n.func.attr in ("setLevel", "setLog", "addHandler", "removeHandler")]
+        if calls and not (isinstance(st, ast.If) and isinstance(st.test, ast.Compare) and isinstance(st.test.left, ast.Name)
+                          and st.test.left.id in ("log", "loglevel") and isinstance(st.test.ops[0], ast.IsNot)):
+            raise Refused("parse.py:%d: CSSParser.__init__ changes the log configuration unconditionally" % st.lineno)
+
+
 def main():
     mods = all_modules()
     flags = {}
@@ -595,16 +741,19 @@ def main():
     ser_frame(mods)
     flags.update(serializer_sites(mods))
     settings_frame(mods)
+    flags.update(cache_sites(mods))
+    more_frames(mods)
     order = ["parse_sets_flag", "parse_restores_normal", "parse_restores_exc", "parse_saves_at_entry", "parse_saved_in_frame",
              "pp_clears_pushed", "pp_clears_saved", "comb_restores_normal", "comb_restores_exc",
-             "level_restored_exc", "memo_guarded"]
+             "level_restored_exc", "memo_guarded", "memo_scoped", "cache_key_full", "dx_clears_cache"]
     body = ["(* brackets of the public entry points that write process-global cells, as found in the source:",
             "     CSSParser.parseString / parseStyle (parseFile, parseUrl and the module-level wrappers delegate),",
             "     ProdParser.__init__ (every call site uses clear=True), script.csscombine,",
             "     CSSSerializer.do_CSSStyleRule (_level, selector memo).",
             "   Frame conditions checked by the translator (a violation aborts generation): nothing else assigns",
             "   .raiseExceptions, css_parser.ser, savedTokens, tokenizer._pushed, _level, the selector memo,",
-            "   PRODUCTIONS / the tokenizer cache. *)",
+            "   PRODUCTIONS / the tokenizer cache (filled only by Tokenizer.__init__), css_parser.profile, the level/handlers",
+            "   of css_parser.log (CSSParser.__init__ only on explicit arguments), util.Base's class-level tokenizer. *)",
             "Definition current : sites :=",
             "  {| " + ";\n     ".join("%s := %s" % (k, "true" if flags[k] else "false") for k in order) + " |}."]
     emit("GlobalSites", "\n".join(body), requires="From CssV Require Import Base Globals.")
